@@ -206,6 +206,9 @@ def run(repo: Repo, rep: Report, tier: str) -> None:
     # rename the generic key so that evidence reads naturally
     lookup_order_rule(repo, rep, R6)
     unary_marking_rule(repo, rep, "C10.R7", 6 if tier == "thorough" else 4)
+    from .c07 import parse_time_count_rule
+
+    parse_time_count_rule(repo, rep, "C10.R8")
 
 
 def unary_marking_rule(repo: Repo, rep: Report, rid: str, max_len: int) -> None:
